@@ -519,6 +519,19 @@ def generate(quick):
             for op in RATIO_CMP:
                 tu.add("static_assert(etl::%s_v<%s, %s> == std::%s_v<%s, %s>);" % (op, ea, eb, op, sa, sb),
                        "%s_v<%d/%d, %d/%d>" % (op, a[0], a[1], b[0], b[1]))
+    # comparisons of ratios that differ by less than one part in 2^53 (exact in integers; equal once rounded to double); the
+    # cross products fit intmax_t, so the integer comparison the standard describes is well-defined
+    M = 2**63 - 1
+    CLOSE = [((M - 1, 1), (M, 1)), ((-M, 1), (-(M - 1), 1)), ((1, M), (1, M - 1)), ((1000000006, 1000000007), (1000000007, 1000000008)),
+             ((2147483646, 2147483647), (2147483647, 2147483648)), ((-2147483647, 2147483648), (-2147483646, 2147483647)),
+             ((4503599627370497, 4503599627370496), (9007199254740993, 9007199254740992))]
+    for a, b in CLOSE:
+        for x, y in ((a, b), (b, a), (a, a)):
+            ex, ey = "etl::ratio<%dLL, %dLL>" % x, "etl::ratio<%dLL, %dLL>" % y
+            sx, sy = "std::ratio<%dLL, %dLL>" % x, "std::ratio<%dLL, %dLL>" % y
+            for op in RATIO_CMP:
+                tu.add("static_assert(etl::%s_v<%s, %s> == std::%s_v<%s, %s> && etl::%s<%s, %s>::value == std::%s<%s, %s>::value);" % (
+                    op, ex, ey, op, sx, sy, op, ex, ey, op, sx, sy), "%s<%d/%d, %d/%d> (close pair)" % (op, x[0], x[1], y[0], y[1]))
     for al, (n, dd) in (("atto", (1, 10**18)), ("femto", (1, 10**15)), ("pico", (1, 10**12)), ("nano", (1, 10**9)),
                         ("micro", (1, 10**6)), ("milli", (1, 1000)), ("centi", (1, 100)), ("deci", (1, 10)),
                         ("deca", (10, 1)), ("hecto", (100, 1)), ("kilo", (1000, 1)), ("mega", (10**6, 1)),
